@@ -278,6 +278,19 @@ def fmt_poly(p, limit=12):
     return s or '0'
 
 
+def nfs(p):
+    """compact canonical string of a normal form (used inside atom names)"""
+    if not p.t:
+        return '0'
+    if len(p.t) == 1:
+        (m, c), = p.t.items()
+        if not m:
+            return fmt_c(c)
+        if c == 1 and len(m) == 1 and m[0][1] == 1:
+            return m[0][0]
+    return fmt_poly(p, limit=60).replace(' ', '')
+
+
 class Rat:
     """num/den with polynomial denominators; equality by cross multiplication"""
     __slots__ = ('n', 'd')
